@@ -111,6 +111,7 @@ func buildScenario(r recipe) *scenario {
 	parent := bs.p.clone()
 	var s scen
 	var after []delivery
+	var sibsBefore, sibsAfter []*wire.MsgBlock // sibling orphans delivered before / after the candidate
 	switch r.ctx {
 	case "tip", "hdr", "restart", "tmpltip":
 		s = scen{n + 1, n, 1, 0, 1, 0}
@@ -207,6 +208,26 @@ func buildScenario(r recipe) *scenario {
 		x := plainBlock(parent, 400+caseNonce(r), blockSpacing+11)
 		after = append(after, delivery{blk: x, watch: true})
 		s = scen{n + 2, n + 1, 1, 0, 1, 0}
+	case "orphan4", "orphan5":
+		// several sibling orphans wait for ONE missing parent X (which extends the tip and arrives last):
+		// orphan4: a valid sibling, the candidate, another valid sibling; orphan5: three valid siblings, then the
+		// candidate.  A child of the candidate waits as an orphan of the candidate.  When X arrives the first
+		// sibling becomes the tip, the others are side blocks, and the candidate's child then wins by reorganisation.
+		x := plainBlock(parent, 400+caseNonce(r), blockSpacing+11)
+		k := 1
+		if r.ctx == "orphan5" {
+			k = 3
+		}
+		for i := 0; i < k; i++ {
+			q := parent.clone()
+			sibsBefore = append(sibsBefore, plainBlock(q, uint32(500+i)+caseNonce(r), blockSpacing+int64(i)))
+		}
+		if r.ctx == "orphan4" {
+			q := parent.clone()
+			sibsAfter = append(sibsAfter, plainBlock(q, 510+caseNonce(r), blockSpacing+5))
+		}
+		after = append(after, delivery{blk: x, watch: true})
+		s = scen{n + 3, n + 2, 1, 0, 1, 0}
 	case "fork":
 		// an unrelated side chain of equal length off block n-2, plus an unrelated orphan, come first
 		side := newPath(v)
@@ -267,6 +288,15 @@ func buildScenario(r recipe) *scenario {
 	case "hdr":
 		// headers first: the header is offered before the block
 		sc.dels = append(sc.dels, delivery{blk: sc.cand, watch: true, hdr: true}, delivery{blk: sc.cand, watch: true})
+	case "orphan4", "orphan5":
+		for _, b := range sibsBefore {
+			sc.dels = append(sc.dels, delivery{blk: b, watch: true})
+		}
+		sc.dels = append(sc.dels, delivery{blk: sc.cand, watch: true})
+		for _, b := range sibsAfter {
+			sc.dels = append(sc.dels, delivery{blk: b, watch: true})
+		}
+		sc.dels = append(sc.dels, delivery{blk: child(), watch: true})
 	case "reorgW":
 		sc.dels = append(sc.dels, delivery{blk: sc.cand, watch: true})
 		q := parent.clone()
@@ -936,7 +966,7 @@ func generate(R *core.Rand, thorough bool, emit func(class string, nontrivial bo
 			emit("par", true, "C01 par "+strings.Join(bodies, " | "))
 		}
 	}()
-	ctxs := []string{"tip", "side", "orphan", "fork", "side2", "tmpl", "orphan2", "orphan3", "hdr", "shuffle", "nopow", "restart", "tmpltip", "reorgX", "reorgY", "reorgZ", "reorgW", "clock"}
+	ctxs := []string{"tip", "side", "orphan", "fork", "side2", "tmpl", "orphan2", "orphan3", "hdr", "shuffle", "nopow", "restart", "tmpltip", "reorgX", "reorgY", "reorgZ", "reorgW", "clock", "orphan4", "orphan5"}
 	for vi, v := range variants {
 		for _, m := range mutators {
 			if !m.applies(v, v.baseLen()+1) {
@@ -1015,6 +1045,10 @@ func generate(R *core.Rand, thorough bool, emit func(class string, nontrivial bo
 					} else {
 						picks = append(picks, recipe{vi, reorgs[R.Intn(4)], R.Intn(2), m.name, a})
 					}
+				}
+				if !thorough && m.name == "valid" {
+					// delivery-order completeness: the valid candidate among several sibling orphans of one parent
+					picks = append(picks, recipe{vi, "orphan4", R.Intn(2), m.name, a}, recipe{vi, "orphan5", R.Intn(2), m.name, a})
 				}
 				if !thorough && m.name == "timenew" {
 					picks = append(picks, recipe{vi, "clock", R.Intn(2), m.name, a}) // the clock context is about this rule
